@@ -22,7 +22,7 @@ use crate::{
     outcome::{canon, guarded, Outcome, Parsed},
     printer::{gen_framing, gen_segments, ipp_response, FaultAt, Framing, ReqRecord, RespFault, RespFaultKind, Script, ERROR_STATUSES},
     props::common::{shrink_mmsg, shrink_payload, shrink_spec},
-    refcodec::hexbytes,
+    refcodec::{self, hexbytes},
     rng::Rng,
     tcp::{TcpPrinter},
     wire::{ErrKind, SimCore, SourceSpec, SrcHandle},
@@ -329,6 +329,33 @@ fn check_response(rep: &mut RunReport, who: &str, res: &SendResult, s: &Script, 
         }
         SendResult::Panic(_) => {}
     }
+}
+
+/// rewrite request-id and x-sim-token of a scripted IPP response for a new sender position
+fn rekey_script(sc: &mut Script, reqid: u32) -> bool {
+    let Ok((mut m, boundary)) = refcodec::decode(&sc.ipp) else { return false };
+    if boundary != sc.ipp.len() {
+        return false;
+    }
+    m.reqid = reqid;
+    let mut found = false;
+    for g in m.groups.iter_mut().filter(|g| g.tag == 0x01) {
+        for a in g.attrs.iter_mut().filter(|a| a.name == b"x-sim-token") {
+            a.values = vec![refcodec::WVal::Scalar { tag: 0x44, body: format!("tok-{reqid}").into_bytes() }];
+            found = true;
+        }
+    }
+    if !found {
+        return false;
+    }
+    sc.ipp = refcodec::encode(&m).bytes;
+    // a fault offset that no longer lies inside the attributes is dropped
+    if let Some(RespFault { at: FaultAt::Body(k), .. }) = sc.fault {
+        if k as usize >= sc.ipp.len() + sc.trailing.len() {
+            sc.fault = None;
+        }
+    }
+    true
 }
 
 fn token_of(p: &Parsed) -> Option<String> {
@@ -909,9 +936,14 @@ impl Prop for C11 {
                     let mut d = c.clone();
                     d.senders.remove(i);
                     d.scripts.remove(i);
-                    // request ids / tokens are positional: re-key the scripts' ipp bodies is not possible without
-                    // regenerating; such candidates only help classes that do not depend on tokens
-                    out.push(d);
+                    // request ids and tokens are positional: re-key the scripted responses of the senders that moved up
+                    let mut ok = true;
+                    for (j, sc) in d.scripts.iter_mut().enumerate() {
+                        ok &= rekey_script(sc, j as u32 + 1);
+                    }
+                    if ok {
+                        out.push(d);
+                    }
                 }
             }
             if !c.baton.is_empty() {
